@@ -10,8 +10,6 @@ package main
 // (hostile fields) runs Deep so that counts inside those blobs are exercised too.
 
 import (
-	"fmt"
-
 	gio "github.com/whatap/golib/io"
 	"github.com/whatap/golib/lang/pack"
 	"github.com/whatap/golib/lang/service"
@@ -20,7 +18,7 @@ import (
 )
 
 type decoder struct {
-	Name   string
+	Name string
 	// both return what was decoded (everything the call handed back), so that the decode server
 	// can fingerprint it: the result must not depend on how the input bytes were handed over
 	Strict func(in *gio.DataInputX) interface{}
@@ -192,7 +190,6 @@ func init() {
 // outcome of one decode
 type outcome struct {
 	Panicked bool
-	Msg      string
 	Consumed bool        // the stream reports no unread byte (meaningful after a normal return)
 	Result   interface{} // what the decoder handed back (nil after a panic)
 }
@@ -205,10 +202,6 @@ func runDecode(d *decoder, deep bool, b []byte) (o outcome) {
 		if e := recover(); e != nil {
 			o.Panicked = true
 			o.Result = nil
-			o.Msg = fmt.Sprint(e)
-			if len(o.Msg) > 200 {
-				o.Msg = o.Msg[:200]
-			}
 		}
 	}()
 	if deep && d.Deep != nil {
